@@ -6,7 +6,7 @@
     run.py --exec-plan -                               (internal) one plan from stdin
 
 Honours VERIF_SEED, VERIF_TIER, VERIF_REPO (tree under test, default /repo),
-VERIF_RUNS (override the number of runs), VERIF_WORKERS.
+VERIF_RUNS (override the number of runs), VERIF_WORKERS, VERIF_EVIDENCE_DIR (write evidence elsewhere).
 Exit codes: 0 held, 1 VIOLATION, 2 HARNESS-ERROR (never a pass).
 """
 
@@ -56,6 +56,16 @@ def main():
     return driver.explore(ns.prop, ns.tier, ns.seed, spec)
 
 
+def _drop_stale_evidence():
+    """A run that ends in a HARNESS-ERROR has no evidence: do not leave the previous run's file behind."""
+    prop = next((a for a in sys.argv[1:] if a.startswith('C') and a[1:].isdigit()), None)
+    if prop and os.path.realpath(core.REPO) == '/repo' and not os.environ.get('VERIF_EVIDENCE_DIR'):
+        try:
+            os.unlink(os.path.join(core.VERIF_DIR, 'evidence', f'{prop}.json'))
+        except OSError:
+            pass
+
+
 if __name__ == '__main__':
     try:
         code = main()
@@ -66,5 +76,7 @@ if __name__ == '__main__':
         traceback.print_exc()
         print('HARNESS-ERROR unexpected exception', file=sys.stderr)
         code = 2
+    if code == 2:
+        _drop_stale_evidence()
     sys.stdout.flush()
     sys.exit(code)
